@@ -17,10 +17,11 @@ ListF == Batch.listf       \* kind -> list fields        (ast grammar)
 KCat  == Batch.kcat        \* kind -> category           (ast class hierarchy)
 
 SeqSet(s) == {s[i] : i \in 1..Len(s)}
-TSlotTag(x) == IF Kind(x) # "Name" THEN "-"
-               ELSE LET c == FieldSeq(x, "id")
-                        v == IF Len(c) = 1 THEN Val(c[1]) ELSE ""
-                    IN IF Len(v) >= 9 /\ SubSeq(v, 1, 8) = "s'__FST_" THEN SubSeq(v, 9, Len(v) - 1) ELSE "-"
+TagOf(v) == IF Len(v) >= 9 /\ SubSeq(v, 1, 8) = "s'__FST_" THEN SubSeq(v, 9, Len(v) - 1) ELSE "-"
+Prim1(x, fn) == LET c == FieldSeq(x, fn) IN IF Len(c) = 1 THEN Val(c[1]) ELSE ""
+TSlotTag(x) == IF Kind(x) = "Name" THEN TagOf(Prim1(x, "id"))
+               ELSE IF Kind(x) = "arg" /\ FieldSeq(x, "annotation") = <<0>> THEN TagOf(Prim1(x, "arg"))   \* parameter slot
+               ELSE "-"
 TIsList(kind, field) == kind \in DOMAIN ListF /\ field \in SeqSet(ListF[kind])
 TKindCat(kind) == IF kind \in DOMAIN KCat THEN KCat[kind] ELSE "other"
 TDots(x) == /\ Kind(x) = "Constant"
@@ -78,7 +79,9 @@ PrefixKeep(toks, start) ==
       n == IF I = {} THEN 0 ELSE MaxS(I)
       C == {i \in 1..n : toks[i][2] = 0}
       k == IF C = {} THEN 0 ELSE MaxS(C)
-  IN IF k >= 2 /\ toks[k][1] = Batch.tokColon /\ toks[k - 1][1] = Batch.tokElse THEN k - 2 ELSE k
+      C2 == {i \in 1..(k - 2) : toks[i][2] = 0}       \* ... and the comments that adjoined the `else:`
+  IN IF k >= 2 /\ toks[k][1] = Batch.tokColon /\ toks[k - 1][1] = Batch.tokElse
+     THEN (IF C2 = {} THEN 0 ELSE MaxS(C2)) ELSE k
 SuffixKeep(toks, end) ==      \* number of tokens at the end that must be preserved
   LET N == Len(toks)
       J == {i \in 1..N : PosLE(end, <<toks[i][3], toks[i][4]>>)}
@@ -212,8 +215,13 @@ YieldArg(K, m) == \E o \in G!TopOccs(K, m) :
                     /\ o.k \in {"Call", "ClassDef"} /\ o.fn \in {"args", "bases"}
                     /\ G!CapKinds(K, m, o.g) \cap {"Yield", "YieldFrom"} # {}
 MissingInBoolOp(K, m) == \E o \in G!TopOccs(K, m) : o.k = "BoolOp" /\ o.g # "" /\ G!CapOf(K, m, o.g).t = "missing"
+NParams(x) == Len(FieldSeq(x, "posonlyargs")) + Len(FieldSeq(x, "args")) + Len(FieldSeq(x, "kwonlyargs"))
+                + (IF FieldSeq(x, "vararg") = <<0>> THEN 0 ELSE 1) + (IF FieldSeq(x, "kwarg") = <<0>> THEN 0 ELSE 1)
+WholeArgsOne(K, m) == /\ Kind(K.M[m].x) = "arguments" /\ NParams(K.M[m].x) = 1
+                      /\ (TSlotTag(K.T[1]) = "" \/ \E o \in G!TopOccs(K, m) : o.g = "")
 Detail(K) == (IF \E m \in K.Sel : YieldArg(K, m) THEN "/yield-arg" ELSE "")
              \o (IF \E m \in K.Sel : MissingInBoolOp(K, m) THEN "/missing-in-boolop" ELSE "")
+             \o (IF \E m \in K.Sel : WholeArgsOne(K, m) THEN "/whole-arguments-one" ELSE "")
              \o (IF K.nested /\ (Len(K.T) > 1 \/ (Cfg.replModule /\ Cfg.cat = "stmt")) THEN "/slice-template" ELSE "")
              \o (IF K.nested /\ \E m \in K.Sel : \E o \in G!TopOccs(K, m) : o.g = "" /\ o.flat THEN "/whole-flatten" ELSE "")
 
